@@ -88,6 +88,9 @@ structure PyWit where
   stack : List Bytes
 deriving Repr, Inhabited
 
+/-- `math.ceil(num / den)` for a positive denominator, computed exactly -/
+def ceilDiv (num den : Int) : Int := -((-num) / den)
+
 /-- a `Transaction` object: the constructor's parameters in order -/
 structure PyTx where
   inputs : List PyTxIn
